@@ -270,6 +270,20 @@ func driver(seed uint64, n int, outV, outJSON string, _ []string) {
 	// profile_address "none" means "no profiling" in both syntaxes (fix 0656fd4)
 	run(append(append(setting{}, base...), kv{"profile_address", vs("none")}), "valid")
 	run(append(append(setting{}, base...), kv{"profile_address", vs("none")}, kv{"profile_port", vi(7070)}, kv{"profile_host", vs("localhost")}), "valid")
+	// every scalar top-level key with a value of its own (two cases with complementary booleans): a flag
+	// wired to the wrong field of the same type shows up here on every run
+	for _, flip := range []bool{true, false} {
+		run(append(append(setting{}, base...), kv{"storage_mode", vs("uncompressed")}, kv{"zstd_implementation", vs("cgo")},
+			kv{"htpasswd_file", vs("/tmp/vc/htpasswd")}, kv{"min_tls_version", vs("1.2")}, kv{"tls_ca_file", vs("/tmp/vc/ca.pem")},
+			kv{"tls_cert_file", vs("/tmp/vc/server.crt")}, kv{"tls_key_file", vs("/tmp/vc/server.key")},
+			kv{"allow_unauthenticated_reads", vb(flip)}, kv{"idle_timeout", vd(45 * sec)}, kv{"http_read_timeout", vd(10 * sec)},
+			kv{"http_write_timeout", vd(20 * sec)}, kv{"max_queued_uploads", vi(7)}, kv{"num_uploaders", vi(9)},
+			kv{"max_size_hard_limit", vi(600)}, kv{"max_blob_size", vi(1001)}, kv{"max_proxy_blob_size", vi(1002)},
+			kv{"access_log_level", vs("none")}, kv{"log_timezone", vs("local")}, kv{"profile_address", vs("127.0.0.1:7070")},
+			kv{"disable_http_ac_validation", vb(flip)}, kv{"disable_grpc_ac_deps_check", vb(!flip)},
+			kv{"enable_ac_key_instance_mangling", vb(flip)}, kv{"enable_endpoint_metrics", vb(!flip)},
+			kv{"http_metrics_prefix", vb(flip)}, kv{"experimental_remote_asset_api", vb(!flip)}), "valid")
+	}
 	// the client certificate / CA of a proxy backend must arrive from YAML as from the flags (fix 46136e2)
 	run(append(append(setting{}, base...), kv{"http_proxy.url", vs("https://cache.example.com:8080/cache")}, kv{"http_proxy.cert_file", vs("/tmp/vc/client.crt")},
 		kv{"http_proxy.key_file", vs("/tmp/vc/client.key")}, kv{"http_proxy.ca_file", vs("/tmp/vc/ca.crt")}), "valid")
